@@ -15,7 +15,7 @@
 #endif
 int32_t nondet_i32(void); int64_t nondet_i64(void); uint32_t nondet_u32(void); _Bool nondet_bool(void);
 static int64_t vg_expect;         /* offset the next seek has to go to */
-static int vg_seeks, vg_reads, vg_wrong_seek, vg_range_error, vg_io_error;
+static int vg_seeks, vg_reads, vg_wrong_seek, vg_range_error, vg_io_error, vg_last_seek_ok;
 static int vg_lvl;                /* level of the index chunk at the current position */
 static int64_t vg_sample_id;
 static int vg_dummy_raw;
@@ -24,6 +24,7 @@ static int64_t vg_step(int lvl) { return lvl == 1 ? 64 : lvl == 2 ? 128 : 256; }
 int32_t jls_raw_chunk_seek(struct jls_raw_s * self, int64_t offset) {
     (void) self;
     vg_seeks++;
+    vg_last_seek_ok = (offset == vg_expect);
     if (offset != vg_expect) { vg_wrong_seek++; }
     if (nondet_bool()) { vg_io_error++; return JLS_ERROR_IO; }
     return 0;
@@ -67,7 +68,7 @@ void h_fsr_seek(void) {
     uint8_t level; int64_t sample_id;
     __CPROVER_assume(level <= 15 && sample_id > -(1ll << 60) && sample_id < (1ll << 60));
     vg_sample_id = sample_id; vg_lvl = top; vg_expect = (top >= 0) ? heads[top] : 0;
-    vg_seeks = 0; vg_reads = 0; vg_wrong_seek = 0; vg_range_error = 0; vg_io_error = 0;
+    vg_seeks = 0; vg_reads = 0; vg_wrong_seek = 0; vg_range_error = 0; vg_io_error = 0; vg_last_seek_ok = 0;
     int32_t rc = jls_core_fsr_seek(c, VG_SIG, level, sample_id);
     if (top < 0) {
         __CPROVER_assert(rc != 0 && vg_seeks == 0, "a signal without any stored chunk is reported as not found");
@@ -78,8 +79,8 @@ void h_fsr_seek(void) {
 #endif
     if (top >= (int) level) {
         __CPROVER_assert(vg_wrong_seek == 0, "C01: every seek goes to the head of the top level, then to the entry of the index just read that covers the sample");
-        __CPROVER_assert(rc != 0 || (vg_reads == top - (int) level && vg_seeks == vg_reads + 1 && vg_range_error == 0 && vg_io_error == 0),
-                         "C01: success = one index chunk read per level above the requested one, the sample inside every index chunk, no error swallowed");
+        __CPROVER_assert(rc != 0 || (vg_lvl == (int) level && vg_seeks >= 1 && vg_last_seek_ok && vg_range_error == 0 && vg_io_error == 0),
+                         "C01: success = descended to the requested level, positioned at the entry that covers the sample, no error swallowed");
         __CPROVER_assert(rc == 0 || vg_range_error != 0 || vg_io_error != 0, "C01: the lookup fails only when a read fails or an index chunk does not cover the sample");
     }
     VG_REACH(seek_returns);
